@@ -22,7 +22,7 @@ HERE = os.path.dirname(os.path.abspath(__file__))
 UNK = ctypes.c_size_t(-1).value
 MODES = {"NFD": 0, "NFC": 1}
 AMPLE = 64  # >= 4*12 + 5 (+ slack): enough for every string of <= 12 characters
-CAP = 192
+CAP = 4400   # room for the long-run strings (<= 520 characters, ample dmax 4*len+8) and their sweep
 ESNOTFND = 409
 
 HANDLER_T = ctypes.CFUNCTYPE(None, ctypes.c_char_p, ctypes.c_void_p, ctypes.c_int)
@@ -177,7 +177,7 @@ def check_norm(cps, mode, dmax=None, bos=False, exp=None):
     if exp is None:
         exp = py_norm(mode, cps)
     ample = dmax is None
-    d = AMPLE if ample else dmax
+    d = min(max(AMPLE, 4 * len(cps) + 8), 1000) if ample else dmax   # up to 4 cells per character plus 5 spare, below RSIZE_MAX_WSTR (1024)
     rc, out, lenp = Lb.norm(cps, mode, d, bos)
     v = []
     if not ample:
